@@ -32,7 +32,7 @@ CLAIMED = {
             "conflicting times and activities; document and bundle) is unified and compared with a reference "
             "unification computed on strict observations: result content and order, refusal iff a single-valued "
             "conflict exists, idempotence, bundle-level unified(), source unchanged.", TECH, NOTE),
-    "C09": ("All states of a 20-letter document alphabet to depth 3 are collected; for every ordered pair (d, other) "
+    "C09": ("All states of a 23-letter document alphabet to depth 3 are collected; for every ordered pair (d, other) "
             "every sequence of up to 2 (thorough 3) operations from update / add_bundle (document, no identifier, "
             "duplicate identifier as object and as string, stand-alone bundle, bundle under another identifier, unresolvable identifier) / flattened is executed on fresh replays and compared step by "
             "step with multiset arithmetic on strict observations; other must stay unchanged, refusals must leave d "
@@ -82,7 +82,7 @@ CLAIMED = {
             "declarations first, bundles last, ECHAR escapes, typed / language literals) and the parsed document must "
             "equal the strict observation of the original.", TECH + "; independent PROV-N parser as oracle",
             NOTE + "; the PROV-N parser (written from the grammar as recalled in DESIGN appendix A.1) is trusted"),
-    "C14": ("Every bundle-free document reachable by <= depth calls of a 28-letter alphabet (declared and undeclared "
+    "C14": ("Every bundle-free document reachable by <= depth calls of a 27-letter alphabet (declared and undeclared "
             "endpoints, entity+agent under one identifier, eight relation kinds, self-loops, parallel duplicates, "
             "identified/anonymous, missing endpoints, attributes) is converted with prov_to_graph and compared with a "
             "reference graph computed from the reference unification (after two decoy documents using the same names in other roles were converted): node multiset, inferred nodes and their kinds, edge multiset "
